@@ -230,6 +230,32 @@ theorem create_from_primitive_norm_index_primitive (p : ℤ) (x : Elem) (N : ℤ
       ((createFromPrimitive p x N O prev).norm : ℚ) ^ 2 * covol O :=
   createFromPrimitive_covol_primitive p x N O prev nx ho hg hx hxO hprim hn hn0 hcop
 
+/-- **`make_primitive_then_create`** (full): for `0 ≠ x ∈ O` it is `create_from_primitive` on a *primitive* `y ∈ O` with
+    `x = content·y` and on `N / gcd(content, N)`. -/
+theorem make_primitive_then_create_full (p : ℤ) (x : Elem) (N : ℤ) (O : Lattice) (prev : ℤ)
+    (ho : isOrderCert p O = true) (hx : x.denom ≠ 0) (hxO : (latContains O x).1 = true)
+    (hc0 : (makePrimitive O x).2 ≠ 0) :
+    let y : Elem := ⟨O.denom, O.basis.eval (makePrimitive O x).1⟩
+    makePrimitiveThenCreate p x N O prev =
+      createFromPrimitive p y (Int.tdiv N (Int.gcd (makePrimitive O x).2 N)) O prev ∧
+    (latContains O y).1 = true ∧ isPrimitive O y = true ∧
+    val p x = ((makePrimitive O x).2 : ℤ) • val p y :=
+  makePrimitiveThenCreate_spec p x N O prev ho hx hxO hc0
+
+/-- **`make_primitive_then_create`: norm² = index** — composition with `create_from_primitive_norm_index_primitive`. -/
+theorem make_primitive_then_create_norm_index (p : ℤ) (x : Elem) (N : ℤ) (O : Lattice) (prev ny : ℤ)
+    (ho : isOrderCert p O = true) (hg : gramOk p O = true) (hx : x.denom ≠ 0) (hxO : (latContains O x).1 = true)
+    (hc0 : (makePrimitive O x).2 ≠ 0)
+    (hn : nrm (val p ⟨O.denom, O.basis.eval (makePrimitive O x).1⟩) = ny)
+    (hn0 : Int.gcd ny (Int.tdiv N (Int.gcd (makePrimitive O x).2 N)) ≠ 0)
+    (hcop : ∀ ℓ : ℕ, ℓ.Prime → ℓ ∣ Int.gcd ny (Int.tdiv N (Int.gcd (makePrimitive O x).2 N)) → ¬ (ℓ : ℤ) ∣ p) :
+    covol (makePrimitiveThenCreate p x N O prev).lattice =
+      ((makePrimitiveThenCreate p x N O prev).norm : ℚ) ^ 2 * covol O := by
+  obtain ⟨e, hyO, hyp, _⟩ := makePrimitiveThenCreate_spec p x N O prev ho hx hxO hc0
+  obtain ⟨hd, _, _, _⟩ := isOrderCert_sound p O ho
+  rw [e]
+  exact create_from_primitive_norm_index_primitive p _ _ O prev ny ho hg hd hyO hyp hn hn0 hcop
+
 /-- existence of a generator with cofactor prime to the norm (the classical lemma, here proved): under the hypotheses
     of `create_from_primitive_norm_index_primitive` stated in the algebra -/
 theorem exists_generator_coprime_cofactor {p : ℤ} {O : Submodule ℤ (H p)} (hO : IsIntegralOrder O) (x : H p) (nx N : ℤ)
